@@ -526,8 +526,12 @@ func crashExplore(op M) any {
 	}
 	defer os.RemoveAll(root)
 	dir := filepath.Join(root, "store")
+	noDir := op["nodir"] == true && oldDoc == nil
 	reset := func() {
 		_ = os.RemoveAll(dir)
+		if noDir {
+			return // the crashing store is the one that creates the directory
+		}
 		fs := &storage.FileSystem{Options: storage.FileSystemOptions{Path: dir}}
 		_ = fs.Store(by, nil)
 		if oldDoc != nil {
@@ -565,7 +569,7 @@ func crashExplore(op M) any {
 		if len(seq) == 0 || seq[len(seq)-1] != kind {
 			seq = append(seq, kind)
 		}
-		if b, err := fs.Retrieve("bystander", nil); err != nil || !proto.Equal(b, by) {
+		if b, err := fs.Retrieve("bystander", nil); !noDir && (err != nil || !proto.Equal(b, by)) {
 			violations = append(violations, fmt.Sprintf("crash at %s: the entry of another identifier is damaged", what))
 		}
 		if what != "completion" {
@@ -582,6 +586,11 @@ func crashExplore(op M) any {
 				violations = append(violations, fmt.Sprintf("crash at %s: a later store of the same identifier fails: %v", what, err))
 			} else if d2, err := fs.Retrieve(id, nil); err != nil || !proto.Equal(d2, follow) {
 				violations = append(violations, fmt.Sprintf("crash at %s: after a later complete store, retrieve returns %v (error %v) instead of the stored document", what, docView(d2, nil), err))
+			} else if err := fs.Store(storeDoc("neighbour-2", 4), nil); err != nil {
+				violations = append(violations, fmt.Sprintf("crash at %s: a store under another identifier after the recovery fails: %v", what, err))
+			} else if d4, err := fs.Retrieve(id, nil); err != nil || !proto.Equal(d4, follow) {
+				// whatever the crash left behind, stores under other identifiers leave a complete entry alone
+				violations = append(violations, fmt.Sprintf("crash at %s, a complete store of the same identifier, then a store under another identifier: retrieve returns %v (error %v) instead of the stored document", what, docView(d4, nil), err))
 			}
 		}
 	}
@@ -624,7 +633,7 @@ func crashExplore(op M) any {
 }
 
 func crashGen(g *G, tier string) []M {
-	n := 6
+	n := 7
 	if tier == "thorough" {
 		n = 42
 	}
@@ -635,7 +644,7 @@ func crashGen(g *G, tier string) []M {
 			bn++ // the new document has nodes
 		}
 		op := M{"op": "crash", "id": g.Pick([]string{"doc-1", "urn:uuid:1", "a/b"}), "bodyNew": float64(bn), "nc": false}
-		switch i % 6 {
+		switch i % 7 {
 		case 1:
 			op["bodyOld"] = float64(40 + g.Int(30))
 		case 2:
@@ -654,6 +663,8 @@ func crashGen(g *G, tier string) []M {
 			if g.Chance(0.5) {
 				op["bodyOld"] = float64(40 + g.Int(30))
 			}
+		case 6:
+			op["nodir"] = true // first-time store into a directory that does not exist yet
 		}
 		ops = append(ops, op)
 	}
